@@ -168,6 +168,8 @@ PARTS = {
     "C02": ["c02", "c02b"],
     "C03": ["c03", "c03b"],
     "C10": ["c10", "c10b"],
+    "C13": ["c13", "c13b"],
+    "C18": ["c18", "c18b"],
 }
 
 
@@ -262,6 +264,7 @@ def main():
             env = dict(os.environ)
             env["VERIF_TMP"] = tmp
             env["VERIF_DIR"] = VERIF
+            env["VERIF_HARNESS"] = harness
             r = subprocess.run([binp] + args, cwd=VERIF, env=env)
             sys.exit(r.returncode)
         finally:
